@@ -86,7 +86,7 @@ func genC18(dir, tier string, seed int64) {
 	nMut := 3000
 	nRand := 1500
 	if tier == "thorough" {
-		nStruct, nMut, nRand = 6000, 150000, 40000
+		nStruct, nMut, nRand = 20000, 500000, 120000
 	}
 	cw := newCaseWriter(dir, "C18_load", hdr, ftr,
 		"generated model structures: 0..3 initializers (C12's generator: 11 types, typed or raw, rank 0..3; 1 model in 3 carries one malformed initializer: extra/zero/negative dim, truncated raw data, unsupported type) x opset import lists ([13], [12], [14], [], [0], [-5], [13,1], [1,13], [13,14], [13,13], [9,11,13], [2^40], random 1..3 versions in -2..20 over several domains), marshalled and loaded with NewModelFromBytes", false, 250)
